@@ -1,7 +1,11 @@
 """Per-property manifest texts."""
 _NOTE = ("Trusted base: NumPy/SciPy numerics (incl. x87 long double), Hypothesis' generators, and the reference models in "
          "/verif/pbt (each written from the property statement; reference models are cross-validated where a closed form exists). "
-         "Generated search never establishes absence; tolerances and domain narrowings are listed in the evidence 'assumptions'.")
+         "Generated search never establishes absence; tolerances and domain narrowings are listed in the evidence 'assumptions'. "
+         "Every check also spells optional arguments positionally (pinned signature order) in one case out of three, varies parameter "
+         "containers / dtypes / memory layouts where the property takes arrays, and - where DESIGN 8.5 lists one - runs a fixed "
+         "enumeration of giant cases next to the random search. Records are float64 / integer / list (single-precision records and the "
+         "process-global numpy error state are outside the claimed domain, DESIGN 8.5 'limits').")
 
 CHECKS = {
     "C01": dict(
